@@ -73,6 +73,12 @@ def run_unit(ctx, unit):
     B = "\n".join(unit["B"]).encode()
     join = lambda x, y: x + (b"\n" if x and y else b"") + y
     cases = [core.Case(unit["args"], d) for d in (A, B, join(A, B), join(B, A), join(A, A))]
+    # the concatenations arrive part by part (first read result = the first part, then the rest): "B arrives after A"
+    if A:
+        cases[2].rsched = [len(A), 1 << 20]
+        cases[4].rsched = [len(A), 3, 1 << 20]
+    if B:
+        cases[3].rsched = [len(B), 1 << 20]
     obs = ctx.drv.run_many(cases)
     if any(o.result != "ok" for o in obs):
         kinds = set(o.result for o in obs)
